@@ -15,6 +15,7 @@
 
 """Classes for individual Markov chains."""
 
+import copy
 import numpy
 
 from epsie.proposals import JointProposal
@@ -457,10 +458,10 @@ class Chain(BaseChain):
         """
         state = {}
         state['chain_id'] = self.chain_id
-        state['proposal_dist'] = self.proposal_dist.state
+        state['proposal_dist'] = copy.deepcopy(self.proposal_dist.state)
         state['iteration'] = self.iteration
         state['current_position'] = self.current_position
-        state['proposed_position'] = self.proposed_position
+        state['proposed_position'] = copy.deepcopy(self.proposed_position)
         state['current_stats'] = self.current_stats
         state['hasblobs'] = self.hasblobs
         if self.hasblobs:
@@ -491,9 +492,9 @@ class Chain(BaseChain):
         self.stats0 = state['current_stats']
         self._hasblobs = state['hasblobs']
         self.blob0 = state['current_blob']
-        self.proposed_position = state['proposed_position']
+        self.proposed_position = copy.deepcopy(state['proposed_position'])
         # set the proposals' states
-        self.proposal_dist.set_state(state['proposal_dist'])
+        self.proposal_dist.set_state(copy.deepcopy(state['proposal_dist']))
         # set the positions` dtypes to match the starting point
         self._positions.dtypes = detect_dtypes(self._start)
         if self.transdimensional:
